@@ -218,7 +218,7 @@ Section LTS.
                        ++ map (fun tb => Move i (t_label (fst tb))) (i_cur iv)
                        ++ map (fun t => Begin i (t_label t)) (i_todo iv)) (seq 0 (st_n st)).
   Definition enabled (st : state) (e : ev) : bool := match step st e with Some _ => true | None => false end.
-  Fixpoint drive (choices : list nat) (fuel : nat) (st : state) : state :=
+  Fixpoint drive (choices : list N) (fuel : nat) (st : state) : state :=
     match fuel with
     | O => st
     | S f =>
@@ -227,7 +227,7 @@ Section LTS.
         | e0 :: es =>
             match choices with
             | [] => drive [] f (apply st e0)
-            | c :: rest => drive rest f (apply st (nth (Nat.modulo c (S (length es))) (e0 :: es) e0))
+            | c :: rest => drive rest f (apply st (nth (N.to_nat (N.modulo c (N.of_nat (S (length es))))) (e0 :: es) e0))
             end
         end
     end.
@@ -315,7 +315,7 @@ Inductive case :=
 | Case (r : list target)
        (warm : list str)                                  (* built alone first ([] = nothing) *)
        (reqs : list (list str))                           (* one entry per concurrent invocation *)
-       (choices : list nat)                               (* drives the model's scheduler *)
+       (choices : list N)                                 (* drives the model's scheduler *)
        (ob_ok : list bool)                                (* exit status 0, per invocation *)
        (ob_outs : list (str * list (str * option str)))   (* label -> out -> content in plz-out at the end *)
        (ob_runs : list (str * nat)).                      (* label -> lines in the action log (both phases) *)
